@@ -4,7 +4,7 @@
    same inputs; the visiting order of each round is the one observed.  No proofs here. *)
 From Coq Require Import List Bool NArith ZArith.
 Import ListNotations.
-From Setec Require Import Base.SMap Base.Bytes Corr.Common Client.Store Client.Init.
+From Setec Require Import Base.SMap Base.Bytes Corr.Common Client.Store Client.Init Client.InitFile.
 From Setec Require Server.DB Server.Http.
 
 Definition V := N.
@@ -91,7 +91,12 @@ Inductive case :=
 | Case (cfg : config) (cache : option (list (name * rentry V))) (tb : stab) (strict : bool)
        (deadline : option N) (t0 : N) (epoch : Z) (rounds : list (list name))
        (snames : list name)                  (* the struct-tagged names (also part of c_names): Fields.Apply looks each up and reads it *)
-       (probe_dt : N) (pt : ptab) (o : obs).
+       (probe_dt : N) (pt : ptab) (o : obs)
+(* client = a real FileClient over this file (the members of its JSON object as NewFileClient decodes them): the
+   model derives the service script and the probe poll's answers from it (Client/InitFile.v); tb and pt are unused *)
+| FileCase (file : list (name * fentry V)) (c : case).
+
+Definition Fe (secret : bool) (ver : N) (value text : option N) : fentry V := FE secret ver value text.
 
 (* ---- comparison *)
 Definition oN2_beq (a b : option (N * N)) : bool :=
@@ -156,10 +161,13 @@ Definition sent_ok (w : world V) (tb : stab) (tr : list (ev V)) (sent : N) : boo
   | None => true
   end.
 
-Definition check (c : case) : bool :=
+Definition check_gen (file : option (list (name * fentry V))) (c : case) : bool :=
   match c with
+  | FileCase _ _ => false
   | Case cfg cache tb strict deadline t0 epoch rounds snames probe_dt pt o =>
-    let w := WORLD (script_of tb) strict deadline (order_of rounds) epoch t0 in
+    let scr := match file with Some f => file_script (mk_map f) | None => script_of tb end in
+    let pans := match file with Some f => file_poll (mk_map f) | None => probe_ans pt end in
+    let w := WORLD scr strict deadline (order_of rounds) epoch t0 in
     match new_store cfg (option_map mk_map cache) w fuel, o with
     | OMisconfig _, ObsErr t reqs _ => (t =? t0)%N && match reqs with [] => true | _ => false end
     | OFail t tr, ObsErr t' reqs sent => (t =? t')%N && (c_file cfg || list_beq oreq_beq (ev_reqs tr) reqs) && sent_ok w tb tr sent
@@ -168,7 +176,7 @@ Definition check (c : case) : bool :=
       let s := fold_left (fun acc n => fst (read (fst (secret_locked acc n)) n (now_s w t))) snames s0 in
       let now_ns := (epoch * 1000000000 + Z.of_N (t + probe_dt))%Z in
       let snap := snapshot s now_ns in
-      let '(s', pfx, ok) := refresh s now_ns (probe_ans pt) in
+      let '(s', pfx, ok) := refresh s now_ns pans in
       (t =? t')%N && (c_file cfg || list_beq oreq_beq (ev_reqs tr) reqs)
       && list_beq doc_beq (fx_docs fx) writes
       && list_beq (option_beq N.eqb) (map (val_of s0) snames) fields
@@ -179,4 +187,10 @@ Definition check (c : case) : bool :=
                   (map (fun n => (n, val_of s' n)) (norm_names (c_names cfg))) (mk_map vals)
     | _, _ => false
     end
+  end.
+
+Definition check (c : case) : bool :=
+  match c with
+  | FileCase f inner => check_gen (Some f) inner
+  | _ => check_gen None c
   end.
